@@ -46,6 +46,23 @@ PROPS['C01'] = {
     'level_note': W_NOTE, 'technique': W_TECH,
 }
 
+K_NOTE = 'trusted: the reference model, the Go runtime overlay, synctest fake clock; the model caller follows the calling contract of the connection; samples histories (plus the stated bounded sweep), not exhaustive beyond it'
+K_TECH = 'deterministic simulation with fault injection (component simulation: seeded histories with faults against a reference model)'
+
+PROPS['C07'] = {
+    'level': 'exploration',
+    'budget': {'quick': 75, 'thorough': 1200},
+    'parts': [{'sim': 'rph', 'share': 2}, {'sim': 'rph', 'mode': 'sweep', 'share': 1},
+              {'sim': 'transfer', 'share': 2, 'env': {'VERIF_ORACLES': 'C07'}}],
+    'rule': 'K:rph: seeded arrival histories (gaps, duplicates, late packets, more gaps than tracked ranges, ECN, forget-below, alarms, drops) against the real received-packet handler '
+            'and a set model, plus a bounded sweep of all arrival sequences over small packet-number universes; W:transfer: whole connections under network faults where the wiretap checks '
+            'every ACK frame against the packets actually delivered and the ack-delay bound; non-trivial = a fault/adversarial step fired or more than trivial history; distinct = distinct abstract histories / wire traces',
+    'real_vs_stub': 'K: real receivedPacketHandler/tracker/history, model peer+clock; W: real endpoints, stub network',
+    'assumptions': ['ack timeliness on the wire is only demanded for packets that are a new largest for the receiver (late packets may lie below the duplicate horizon)'],
+    'level_text': 'seeded search over arrival histories with a set-based reference model, bounded exhaustive sweep over small universes, and wire-level ACK checks on whole connections under fault schedules',
+    'level_note': K_NOTE, 'technique': K_TECH,
+}
+
 NOT_APPLICABLE = {
     'C08': 'pure functions of a byte string / value (quantifier: inputs only): no schedule, clock, fault or interleaving for a simulator to control; deciding it is input generation (fuzzing), a different technique - DESIGN.md section 5',
     'C19': 'predicate over field lists and http.Header values (quantifier: inputs only): no schedule, clock, fault or interleaving - DESIGN.md section 5',
